@@ -284,6 +284,18 @@ def run(ctx):
             ctx.fail("C13.R3", key, mm.file, c.lineno, mm.qual,
                      f"`{norm_stmt(c)}`: the mapping header must be split at most 5 times "
                      f"so that a path containing spaces stays whole")
+    # the listing is cut into lines at b'\n' only: the kernel escapes '\n' in a mapping's
+    # path and nothing else, so `splitlines()` (which also cuts at '\r', and for text
+    # at \x0b \x0c \x1c-\x1e \x85 \u2028 \u2029) breaks a header whose path holds one
+    cuts = [c for c in calls_in(mm.node) if isinstance(c.func, ast.Attribute)
+            and c.func.attr == "splitlines"]
+    if cuts:
+        ctx.fail("C13.R3", "line-cut", mm.file, cuts[0].lineno, mm.qual,
+                 f"`{norm_stmt(cuts[0])}`: splitlines() also cuts at '\\r' (and more for text); "
+                 f"a mapping whose path contains such a byte is split into two records. "
+                 f"The kernel escapes only '\\n': cut with split(b'\\n') or iterate the file")
+    else:
+        ctx.ok("C13.R3", "line-cut", sample="no splitlines() on the smaps listing")
     # the per-mapping record: a >= 10-slot tuple literal, assigned or appended directly
     def expanded(t_):
         # (a, b, c, *[d.get(k, 0) for k in TABLE]) with TABLE a module-level tuple of
